@@ -51,6 +51,7 @@ def run(rep, tier, seed):
         dict(name="mat22_len2", D=2, P=1, pool="PoolMat22", acts="ActsShape", idx="IdxSmall", rs="RsCat", maxlen=2, maxobjs=6),
         dict(name="more_mat22", D=2, P=2, pool="PoolMat22", acts="ActsMore", rs="RsCat", tiles="Tiles", maxlen=1, maxobjs=6),
         dict(name="more_mat23", D=2, P=1, pool="PoolMat", acts="ActsMore", rs="RsCat", tiles="Tiles", maxlen=1, maxobjs=6),
+        dict(name="more_rectangular", D=2, P=2, pool="PoolRect", acts="ActsMore", rs="RsCat", tiles="Tiles", maxlen=1, maxobjs=6),
         dict(name="more_3d", D=2, P=2, pool="Pool3D", acts="ActsMore", rs="RsCat", tiles="Tiles", maxlen=1, maxobjs=6),
         dict(name="more_scalar", D=2, P=1, pool="PoolScal", acts="ActsMore", rs="RsCat", tiles="Tiles", maxlen=2 if not q else 1, maxobjs=6),
         dict(name="complex_ops", module="MC_CUTPM", D=2, P=2, pool="PoolCx3", acts="ActsCplx", idx="IdxSmall", maxlen=1 if q else 2, maxobjs=6),
